@@ -116,17 +116,36 @@ def lean_sources():
 # further modules whose theorems belong to a property's obligations
 EXTRA_MODULES = {
     "C14": ["CodeLimit.Props.C14b"],
-    "C01": ["CodeLimit.Lemmas.GenTie", "CodeLimit.Props.C01disc"],
+    "C01": ["CodeLimit.Lemmas.GenTie", "CodeLimit.Props.C01disc", "CodeLimit.Props.C01py", "CodeLimit.Props.C01syn",
+            "CodeLimit.Props.C01tree"],
     "C05": ["CodeLimit.Lemmas.GenTie", "CodeLimit.Props.C05text"],
 }
 
 
 def module_theorems(mod: str):
+    """fully qualified names of the theorems declared in a module (nested namespaces / sections followed)"""
     path = os.path.join(LEAN, *mod.split(".")) + ".lean"
     src = _strip_comments(open(path).read())
-    ns = re.findall(r"^namespace\s+(\S+)", src, re.M)
-    prefix = (ns[0] + ".") if ns else ""
-    return [prefix + t for t in _THM.findall(src) if "." not in t or not t.startswith("_root_")]
+    stack = []          # ("ns", name) | ("sec", name)
+    out = []
+    for line in src.splitlines():
+        m = re.match(r"^\s*namespace\s+(\S+)", line)
+        if m:
+            stack.append(("ns", m.group(1))); continue
+        m = re.match(r"^\s*(?:noncomputable\s+)?section\b\s*(\S*)", line)
+        if m:
+            stack.append(("sec", m.group(1))); continue
+        m = re.match(r"^\s*end\b\s*(\S*)\s*$", line)
+        if m and stack:
+            stack.pop(); continue
+        m = _THM.match(line)
+        if m:
+            t = m.group(1)
+            if t.startswith("_root_."):
+                out.append(t[len("_root_."):])
+            else:
+                out.append(".".join([n for k, n in stack if k == "ns"] + [t]))
+    return out
 
 
 def prop_theorems(pid: str):
